@@ -21,10 +21,18 @@ import (
 )
 
 const (
-	repoDir    = "/repo"
 	verifDir   = "/verif"
 	harnessDir = "/verif/harness"
 )
+
+// repoDir is the tree under test: /repo, unless GOSYM_REPO names a scratch
+// copy (used only to try seeded changes without touching /repo).
+var repoDir = func() string {
+	if d := os.Getenv("GOSYM_REPO"); d != "" {
+		return d
+	}
+	return "/repo"
+}()
 
 type TierCfg struct {
 	Params   map[string]int `json:"params"`
